@@ -9,7 +9,7 @@ inductive SymKind | file | folder | unknown
 
 inductive Target
   | normalized (s : String)
-  | notNormalized (s : String)
+  | notNormalized (b : List UInt8)   -- raw bytes of the link text, carried verbatim (they need not be UTF-8)
   deriving DecidableEq, Repr, Inhabited
 
 inductive Details
@@ -73,7 +73,7 @@ def SymKind.render : SymKind → String
 
 def Target.render : Target → String
   | .normalized s => "N" ++ hexOfString s
-  | .notNormalized s => "X" ++ hexOfString s
+  | .notNormalized b => "X" ++ hexOfBytes b
 
 def Details.render : Details → String
   | .file m s => s!"F:{m}:{s}"
@@ -111,7 +111,7 @@ def SymKind.parse : String → Option SymKind
 def Target.parse (s : String) : Option Target :=
   match s.toList with
   | 'N' :: r => (stringOfHex (String.ofList r)).map .normalized
-  | 'X' :: r => (stringOfHex (String.ofList r)).map .notNormalized
+  | 'X' :: r => (bytesOfHex (String.ofList r)).map .notNormalized
   | _ => none
 
 def Details.parse (s : String) : Option Details :=
